@@ -982,6 +982,7 @@ class Extractor {
       QualType T = F->getType();
       fo["is_ptr"] = T->isPointerType();
       fo["is_ref"] = T->isReferenceType();
+      if (F->isBitField()) fo["bits"] = (int64_t)F->getBitWidthValue(Ctx);
       if (F->hasInClassInitializer() && F->getInClassInitializer())
         fo["init"] = expr(F->getInClassInitializer());
       if (const RecordType *RT = T->getAs<RecordType>())
